@@ -2,7 +2,9 @@
 
 WORDS = ['pass', 'word', 'password', 'love', 'dragon', 'monkey', 'summer', 'winter', 'secret', 'house', 'green', 'tiger',
          'пароль', 'любовь', 'σίσυφος', 'λόγος', 'straße', 'naïve', 'über', 'élan', 'abc', 'xy', 'q', 'letmein', 'iloveyou']
-WALKS = ['1qaz', 'qwer', '2wsx', 'zxcv', '1q2w3e', 'asdf', 'qazwsx', '!QAZ', '4rfv', 'poiu', 'йцук', 'qwerty12']
+WALKS = ['1qaz', 'qwer', '2wsx', 'zxcv', '1q2w3e', 'asdf', 'qazwsx', '!QAZ', '4rfv', 'poiu', 'йцук', 'qwerty12',
+         # runs that pivot on a key present on both layouts (digits ; : " ? / ,): adjacent on one layout before it, on the other after it
+         'kl;3', 'kl;345', 'q1"3', 'q1"32', 'ц23e', 'l;4r', '1qa;4']
 CONTEXT = [';p', ':p', '*0*', '#1', 'No.1', 'no.1', 'No.', 'i<3', 'I<3', '<3', 'Mr.', 'mr.', 'MS.', 'St.', 'Dr.', 'dr.']
 YEARS = ['1999', '2000', '2012', '1987', '2024', '1900', '2099', '19', '20', '199', '20123', '12019']
 TLDS = ['.com', '.org', '.net', '.de', '.ru', '.uk', '.nl.se', '.mil']
